@@ -265,7 +265,23 @@ func c20Gen(tier string, rng *rand.Rand, emit func(string)) map[string]interface
 			out("regroup", fmt.Sprintf("cg P %d 3: %s", k, body))
 		}
 	})
-	allFns := []string{"a4.0", "a4.1", "a4.2", "a4.3", "a5.1", "a3.2", "a7.6", "r", "t", "p7", "p-2", "s", "d", "v1", "v2", "v3", "w2", "c1.5", "n3"}
+	// stages that yield nothing (nil / empty) in the middle, followed by stages that produce a value from zero arguments
+	// (seeded C20-w5v2: Pipe returned nil when the inner result was a nil slice)
+	nilFns := []string{"nl", "em", "fg9", "fg3", "ct", "cn7", "a4.1", "s"}
+	c20Lists(nilFns, 1, 4, func(fs []string) {
+		body := strings.Join(fs, " ; ")
+		for _, v := range []string{"C", "P", "CI", "PI"} {
+			out("nil_stages", "cp "+v+" 2,4,6: "+body)
+		}
+		if len(fs) >= 2 && len(fs) <= 3 {
+			for k := 1; k < len(fs); k++ {
+				out("nil_stages", fmt.Sprintf("cg C %d 2,4,6: %s", k, body))
+				out("nil_stages", fmt.Sprintf("cg P %d 2,4,6: %s", k, body))
+			}
+			out("nil_stages", "ru P,C,J,I,h1,g1 2,4,6: "+body)
+		}
+	})
+	allFns := []string{"nl", "em", "fg3", "fg9", "ct", "cn7", "a4.0", "a4.1", "a4.2", "a4.3", "a5.1", "a3.2", "a7.6", "r", "t", "p7", "p-2", "s", "d", "v1", "v2", "v3", "w2", "c1.5", "n3"}
 	nRand := 1500
 	if thorough {
 		nRand = 15000
